@@ -3649,8 +3649,11 @@ private:
       basic_block_t &parent = get_parent(curId);
       basic_block_t &child = get_child(curId);
 
-      // Merge with its parent if it's its only child.
-      if (has_one_child(parent.label())) {
+      // Merge with its parent if it's its only child. Nothing is
+      // appended to the exit block: the executions that end there must
+      // not run the statements of its successors.
+      if (has_one_child(parent.label()) &&
+          !(has_exit() && exit() == parent.label())) {
         // fold cur into parent
         parent.copy_back(cur);
         visited.erase(curId);
